@@ -482,6 +482,27 @@ class Program:
                 and f.func.id == "getattr" and len(f.args) >= 2:
             return self._reflective(fi, f, call)
 
+        # self._lookup("prefix", x)(...) where the private helper is nothing
+        # but `return getattr(self, p + n)`: the same dispatch, one call away
+        if isinstance(f, ast.Call) and isinstance(f.func, ast.Attribute) \
+                and isinstance(f.func.value, ast.Name) and fi.cls is not None \
+                and fi.params and f.func.value.id == fi.params[0] \
+                and not f.keywords:
+            helper = m.lookup_method(fi.cls.qualname, f.func.attr)
+            g = _getattr_returner(helper) if helper is not None else None
+            if g is not None and len(helper.params) - 1 == len(f.args):
+                import copy
+                sub = dict(zip(helper.params[1:], f.args))
+                sub[helper.params[0]] = f.func.value
+
+                class _S(ast.NodeTransformer):
+                    def visit_Name(self, n):
+                        return copy.deepcopy(sub[n.id]) if n.id in sub else n
+                synth = _S().visit(copy.deepcopy(g))
+                ast.copy_location(synth, f)
+                ast.fix_missing_locations(synth)
+                return self._reflective(fi, synth, call)
+
         if isinstance(f, ast.Name) and not (
                 m.resolve_dotted(mod, f.id) or "").startswith("builtins."):
             # a local bound (once) to getattr(obj, "prefix" + x): the same
@@ -880,6 +901,21 @@ class Program:
                     return False
             return True
         return False
+
+
+def _getattr_returner(fn):
+    """The `getattr(obj, name_expr)` a helper returns when that is all it
+    does (a docstring aside), else None."""
+    body = [st for st in fn.node.body
+            if not (isinstance(st, ast.Expr) and isinstance(
+                st.value, ast.Constant) and isinstance(st.value.value, str))]
+    if len(body) == 1 and isinstance(body[0], ast.Return) \
+            and isinstance(body[0].value, ast.Call) \
+            and isinstance(body[0].value.func, ast.Name) \
+            and body[0].value.func.id == "getattr" \
+            and len(body[0].value.args) >= 2 and not fn.node.decorator_list:
+        return body[0].value
+    return None
 
 
 def _is_static(node):
